@@ -43,4 +43,53 @@ def visible (s : St) : Val := (observe s).2
 def seqInsert (cfg : Cfg) (now : Int) (ds : List Val) (c : Coll) : Coll :=
   ds.foldl (fun c d => (stepColl cfg now c (.arr [.str "insert_one", d])).1) c
 
+/-! ### C05: the domain on which "`_id` is a primary key" is proved
+
+The model's value universe `Val` contains association lists with DUPLICATE keys
+(`.doc [("a", 1), ("a", 2)]`), which no Python `dict` can be.  On those, Python `==` as modelled
+(`pyEq`: equal lengths and every key of the left operand found — first occurrence — on the right
+with an `==` value) is neither reflexive nor symmetric, and the C05 invariant fails on them
+(Props/C05.lean: `step_inv_full_fails`, `reachable_inv_full_fails`, `id_immutable_full_fails`).
+The theorems are therefore stated for collections of *well-behaved entries*.
+
+`GoodColl` holds whenever every `_id` is a scalar (null, bool, number, string, datetime, ObjectId),
+the empty sub-document or a single-field sub-document of such values (`scalar_symm`,
+`symm_doc_empty`, `symm_doc_single`) and every stored document has pairwise distinct top-level
+keys (as every Python dict has).  It does NOT cover multi-field embedded `_id`s such as
+`{a: 1, b: 2}`: `SymmVal` quantifies over every other value of the universe, duplicate-key lists
+included, and `pyEq {a:1, a:1} {a:1, b:2} = true ≠ pyEq {a:1, b:2} {a:1, a:1}`.  Multi-field embedded
+`_id`s are covered by the correspondence run and the direct oracle only
+(named scope limit `embedded-id-multifield`). -/
+
+/-- a well-behaved entry `(store key, document)`: Python `==` is symmetric (against every value)
+    and reflexive on the store key, and the document is dict-shaped at top level (pairwise
+    distinct keys).  Excludes: keys that are duplicate-key association lists (no Python dict) and
+    multi-field embedded `_id`s (scope limit `embedded-id-multifield`). -/
+def GoodEntry (p : Val × Val) : Prop :=
+  SymmVal p.1 ∧ pyEq p.1 p.1 = true ∧ ∃ fs, p.2 = .doc fs ∧ (dkeys fs).Nodup
+
+/-- every entry of the collection is well-behaved (see `GoodEntry`) -/
+def GoodColl (c : Coll) : Prop := ∀ p ∈ c.docs, GoodEntry p
+
+/-- decidable sufficient condition for `GoodEntry`: scalar store key, dict-shaped document -/
+def goodB (p : Val × Val) : Bool :=
+  isScalar p.1 && (match p.2 with
+    | .doc fs => decide ((dkeys fs).Nodup)
+    | _ => false)
+
+mutual
+  /-- hereditary well-formedness: every document, at every depth, has pairwise distinct keys —
+      what every value built from Python dicts and lists satisfies -/
+  def wfVal : Val → Bool
+    | .doc fs => decide ((dkeys fs).Nodup) && wfFields fs
+    | .arr xs => wfList xs
+    | _ => true
+  def wfFields : Fields → Bool
+    | [] => true
+    | (_, v) :: r => wfVal v && wfFields r
+  def wfList : List Val → Bool
+    | [] => true
+    | x :: r => wfVal x && wfList r
+end
+
 end MongoModel.Spec
